@@ -141,6 +141,7 @@ def run(tier, seed):
     laws(chk, tier)
     arity_law(chk)
     separator_law(chk)
+    qualifier_law(chk)
     glue_law(chk, [t for t, valid in texts if valid], tier)
     sensitivity_law(chk, [t for t, valid in texts if valid], tier)
     return chk.finish()
@@ -225,6 +226,25 @@ def separator_law(chk):
                 if out.startswith('A ') and not (call.startswith(('ROUND', 'IF(')) ):
                     chk.violation({'why': 'a separator with no argument after / before it is accepted (it can only be dropped)', 'formula': wrap, 'tree': out[:300],
                                    'stream': 'separator-law'})
+
+
+def qualifier_law(chk):
+    """a sheet qualifier written inside a reference is never consumed and ignored: with the qualifier the formula is rejected or means something else than without it"""
+    sheets = lambda f: [('S', [[1, 2, None], [3, 4, None], [None, None, f]]), ('T', [[10, 20], [30, 40]])]
+    pairs = [('=SUM(A1:T!B2)', '=SUM(A1:B2)'), ("=SUM(A1:'T'!B2)", '=SUM(A1:B2)'), ('=A1:T!B2', '=A1:B2'), ('=SUM(T!A1:T!B2)', '=SUM(A1:B2)'), ('=A1+T!A1', '=A1+A1'),
+             ('=SUM(A1:Nope!B2)', '=SUM(A1:B2)'), ('=INDEX(A1:T!B2,1,1)', '=INDEX(A1:B2,1,1)')]
+    for with_q, without in pairs:
+        try:
+            a = realcode.translate(sheets(with_q), entry=(0, 2, 2))
+        except Exception:
+            chk.count('law:qualifier:rejected')
+            continue
+        b = realcode.translate(sheets(without), entry=(0, 2, 2))
+        chk.count('law:qualifier:translated')
+        chk.seen(('qualifier', with_q))
+        if a == b:
+            chk.violation({'why': 'a sheet qualifier inside a reference is consumed and ignored: the formula translates to the class of the formula without it', 'formula': with_q,
+                           'same_as': without, 'stream': 'qualifier-law'})
 
 
 def glue_law(chk, texts, tier):
